@@ -57,6 +57,18 @@ Proof. exact kv_sort_canonical. Qed.
 Theorem C13_same_pointer_twice : forall lay vs, marshal lay (arg_after lay vs) = marshal lay vs.
 Proof. exact marshal_again. Qed.
 
+(* Histories: Marshal keeps nothing between calls.  In the model a history of calls — each with its own layout, value
+   and destination, including calls that FAIL (refused by a field encoder, destination giving up after k octets) —
+   is the list of the models of its calls, so the result of a call does not depend on what was marshalled before it.
+   The check compares this with the implementation on histories "Marshal v; a failing call of every refusal kind at
+   every field position / every writer failure; Marshal v again" (cases [run_calls …], classes …/after-failed-marshal/…). *)
+Theorem C13_history_free : forall pre c post,
+  nth_error (run_calls (pre ++ c :: post)) (List.length pre) = Some (run_call c).
+Proof. exact history_free. Qed.
+Theorem C13_same_value_around_a_failed_call : forall lay vs bad,
+  exists r, run_calls [(lay, vs, None); bad; (lay, vs, None)] = [r; run_call bad; r].
+Proof. exact sandwich_same. Qed.
+
 (* non-vacuity: a non-canonical deliver_sm_resp frame (TLVs unsorted, one duplicated, one empty) decodes, re-encodes to different octets, and is stable from there *)
 Example C13_inhabited :
   exists vs b', unmarshal (lay_of 2147483653) C13_ex_frame = Ok vs /\ marshal (lay_of 2147483653) vs = Ok b' /\
@@ -70,3 +82,5 @@ Print Assumptions C13_deterministic_tlvs.
 Print Assumptions C13_deterministic_udh.
 Print Assumptions C13_canonical_form.
 Print Assumptions C13_same_pointer_twice.
+Print Assumptions C13_history_free.
+Print Assumptions C13_same_value_around_a_failed_call.
